@@ -1443,6 +1443,11 @@ impl DtlsInner {
         ctx: &mut HandshakeContext,
         is_client: bool,
     ) -> Result<()> {
+        // HelloVerifyRequest is a server-to-client message: only a client resends
+        // its ClientHello.
+        if !is_client {
+            return Ok(());
+        }
         trace!("Received HelloVerifyRequest");
         let mut body = msg.body.clone();
         if let Ok(verify_req) = HelloVerifyRequest::decode(&mut body) {
@@ -1614,6 +1619,12 @@ impl DtlsInner {
         ctx: &mut HandshakeContext,
         is_client: bool,
     ) -> Result<()> {
+        // ServerHelloDone is a server-to-client message: a server that receives
+        // one must not answer it with a ClientKeyExchange.
+        if !is_client {
+            return Ok(());
+        }
+
         if ctx.session_keys.is_some() {
             return Ok(());
         }
@@ -1657,7 +1668,9 @@ impl DtlsInner {
                 is_client,
             )
             .await?;
-        ctx.message_seq += 1;
+        ctx.message_seq = ctx.message_seq.checked_add(1).ok_or_else(|| {
+            anyhow::anyhow!("DTLS handshake message sequence exhausted")
+        })?;
 
         // Compute shared secret
         let peer_key = if let Some(pk) = &ctx.peer_public_key {
